@@ -10,3 +10,4 @@ import Dtr.Props.C16
 #print axioms Dtr.C16_bidir_names
 #print axioms Dtr.C16_errors
 #print axioms Dtr.C16_attrib_own_entry
+#print axioms Dtr.C16_text_ignores_empty_nodes
